@@ -77,7 +77,20 @@ struct TreeData : public TreeDataVariant
     TreeData(TreeDataVariant&& v)
         : TreeDataVariant(std::move(v))
         , flags(compute_flags())
-    { /* Nothing to do here */ }
+    { /* Nothing to do here */
+#ifdef LIBFIVE_VERIF
+        verif_live_nodes()++;
+#endif
+    }
+
+#ifdef LIBFIVE_VERIF
+    /*  Verification hook: number of TreeData objects currently alive  */
+    ~TreeData() { verif_live_nodes()--; }
+    static std::atomic<long>& verif_live_nodes() {
+        static std::atomic<long> n{0};
+        return n;
+    }
+#endif
 
     /*  Returns the opcode of this clause */
     Opcode::Opcode op() const;
